@@ -494,6 +494,9 @@ std::pair<void*,size_t> splinetable<Alloc>::write_fits_mem() const{
 		//buffered data reaches the memory 'file' only now (and may fail to, if it cannot grow)
 		cleanup.close();
 	}catch(std::exception& ex){
+		//the guard has closed the memory file by now; cfitsio leaves the buffer
+		//(which it may have reallocated through the buf pointer) to its owner
+		free(buf);
 		throw std::runtime_error("Failed to write FITS memory 'file': \n"+std::string(ex.what()));
 	}
 	
